@@ -151,6 +151,8 @@ def h_transfer(s0: bool, s1: bool, s2: bool, p0: bool, p1: bool, p2: bool, pd0: 
         else:
             req = {t.hash_info for _, t in uniq.values()}
             kw = {"shallow": False}
+        if cube("label", False):  # callers label requested ids with the path they came from (obj_name): not part of an id's identity
+            req = {HashInfo(h.name, h.value, obj_name="ws/" + h.value[:4]) for h in req}
         expanded = {t.oid for _, t in uniq.values()} | ({FO[i] for i in range(NF)} if MODE == "closed" else
                                                          {FO[i] for l in LISTING for i in l})
         res, crashed, exc = None, False, None
